@@ -18,7 +18,8 @@ VARIABLES l, hooked
 
 ToSet(s) == {s[j] : j \in 1..Len(s)}
 RDecodeCfg(o) == [all |-> o.all, en |-> ToSet(o.en), dis |-> ToSet(o.dis), top |-> o.top, ov |-> o.ov, oth |-> o.oth]
-RDecodeCase(o) == [lines |-> o.lines, ctx |-> "top", cfg |-> RDecodeCfg(o.cfg), draft |-> NoDraft]
+RDecodeCase0(o) == [lines |-> o.lines, ctx |-> "top", cfg |-> RDecodeCfg(o.cfg), draft |-> NoDraft, impl |-> NoImpl]
+RDecodeCase(o) == [RDecodeCase0(o) EXCEPT !.impl = ImplCase(RDecodeCase0(o))]
 DecodeOut(s) == {[code |-> s[j][1], line |-> s[j][2]] : j \in 1..Len(s)}
 
 TInit == /\ l = 1 /\ hooked = TRUE /\ case = RBlank(<< >>) /\ pc = "trace" /\ i = 0 /\ ms = RBlankMS
@@ -41,7 +42,7 @@ TUnexpected ==
 TShow ==
     /\ Obs[l].event = "ShowError" /\ Obs[l].code # "cx"
     /\ LET o == Obs[l]
-           r == ImplShow(ImplCase(case), ms, o.code, o.lineno, FALSE)
+           r == ImplShow(case.impl, ms, o.code, o.lineno, FALSE)
        IN /\ ms' = Log(r.ms, o.code, o.lineno, r.decision)
           /\ (IF r.decision = o.decision THEN TRUE
               ELSE Say(o.tid, "drift:decision:" \o o.code \o ":" \o o.decision \o "/" \o r.decision))
@@ -61,7 +62,7 @@ ImplMetaDecision(c, code) ==
 TMeta ==
     /\ Obs[l].event = "Meta"
     /\ LET o == Obs[l]
-           d == ImplMetaDecision(ImplCase(case), o.code)
+           d == ImplMetaDecision(case.impl, o.code)
        IN /\ ms' = Log(ms, o.code, o.lineno, d)
           /\ (IF d = o.decision THEN TRUE ELSE Say(o.tid, "drift:meta-decision:" \o o.code \o ":" \o o.decision \o "/" \o d))
     /\ UNCHANGED <<case, pc, i, stack, pend, ops, hooked>>
@@ -85,7 +86,7 @@ TEnd ==
     /\ Obs[l].event = "End"
     /\ LET o == Obs[l]
            real == DecodeOut(o.out)
-           ic == ImplCase(case)
+           ic == case.impl
            model == OutSet([ms EXCEPT !.out = @ \o ImplUnusedFrom(ic, ms.used, 1) \o ImplBare(ic)])
        IN /\ (IF OutputOKFor(RefCase(case), real, RCodes) THEN TRUE ELSE Say(o.tid, "viol:ProjectionOK"))
           /\ (IF hooked
